@@ -155,3 +155,35 @@ def tableVariablesMap (js : Bool) (query : Str) (pfx : Char) (names : Option (Li
       | .error e => .error (.var e)
 
 end Rbql
+
+namespace Rbql
+
+/-! ### `get_variables_map` of the other adapters: the same passes, in their own order and under their own conditions -/
+
+inductive IterKind
+  | table        -- rbql_engine.TableIterator (lists)
+  | pandas       -- rbql_pandas.DataframeIterator
+  | csv          -- rbql_csv.CSVRecordIterator (rbql_csv.py and rbql_csv.js)
+  | sqlite       -- rbql_sqlite.SqliteRecordIterator
+  deriving DecidableEq, Repr
+
+/-- `get_variables_map` of every input adapter. `names`: the column names the adapter knows (`none`: a list / dataframe without names, a CSV
+file read without header). The CSV iterators run the ATTRIBUTE pass before the dictionary pass (so an unknown `a.name` is reported even when the
+dictionary pass would have run first elsewhere); the list iterator alone checks the width of the first record; only lists and dataframes have
+the direct (non-normalised) mode. -/
+def iteratorVariablesMap (kind : IterKind) (js : Bool) (query : Str) (pfx : Char) (names : Option (List Str)) (normalize : Bool)
+    (firstWidth : Option Nat) : Except TableVarErr VarMap :=
+  match kind with
+  | .table => tableVariablesMap js query pfx names normalize firstWidth
+  | .pandas => tableVariablesMap js query pfx names normalize none
+  | .sqlite => tableVariablesMap js query pfx names true none
+  | .csv =>
+    let m := positionalVars (!js) pfx query []
+    match names with
+    | none => .ok m
+    | some ns =>
+      match parseAttributeVariables js query pfx ns m with
+      | .ok m' => .ok (parseDictionaryVariables js query pfx ns m')
+      | .error e => .error (.var e)
+
+end Rbql
